@@ -192,26 +192,73 @@ def r2_sql(ctx, repo, cls):
     else:
         ctx.violated("R2", C, where(mod, cls.node), msg, key="upsert")
     # binding in sync_individual and sync_all
+    def pair_ok(a, b):
+        iv = (access_path(a) or "").rsplit(".", 1)[0]
+        return (access_path(a) or "").endswith(".id") and text(b) == "json.dumps(%s.to_dict())" % iv
+
     for name in ("sync_individual", "sync_all"):
         fn = cls.methods.get(name)
         if fn is None:
             raise AnalysisError("SqliteDataStore.%s not found" % name)
-        ex = [c for c in calls_in(fn) if isinstance(c.func, ast.Attribute) and c.func.attr == "execute"]
-        good = False
-        detail = "no execute of the upsert found"
+        ex = [c for c in calls_in(fn) if isinstance(c.func, ast.Attribute) and c.func.attr in ("execute", "executemany")]
+        verdict, detail = None, "no execute of the upsert found"
         for c in ex:
-            if c.args and access_path(c.args[0]) and access_path(c.args[0]).endswith("." + upsert[0]) and len(c.args) == 2 \
-                    and isinstance(c.args[1], (ast.List, ast.Tuple)) and len(c.args[1].elts) == 2:
-                a, b = c.args[1].elts
-                iv = (access_path(a) or "").rsplit(".", 1)[0]
-                if (access_path(a) or "").endswith(".id") and text(b) == "json.dumps(%s.to_dict())" % iv:
-                    good = True
+            if not (c.args and access_path(c.args[0]) and access_path(c.args[0]).endswith("." + upsert[0]) and len(c.args) == 2):
+                continue
+            if c.func.attr == "execute":
+                if isinstance(c.args[1], (ast.List, ast.Tuple)) and len(c.args[1].elts) == 2:
+                    a, b = c.args[1].elts
+                    if pair_ok(a, b):
+                        verdict = True
+                    else:
+                        verdict, detail = False, "bound values are (%s, %s), expected (x.id, json.dumps(x.to_dict()))" % (text(a), text(b))
+                continue
+            # executemany(upsert, ROWS)
+            rows = c.args[1]
+            src = rows
+            while isinstance(src, ast.Call) and access_path(src.func) in ("list", "tuple", "iter") and src.args:
+                src = src.args[0]
+            if isinstance(src, (ast.ListComp, ast.GeneratorExp)) and len(src.generators) == 1:
+                g = src.generators[0]
+                if g.ifs:
+                    verdict, detail = False, "the batch filters the individuals (%s)" % text(g.ifs[0])
+                elif isinstance(src.elt, (ast.Tuple, ast.List)) and len(src.elt.elts) == 2 and pair_ok(*src.elt.elts) \
+                        and (access_path(g.iter) or "").endswith(".problem.individuals"):
+                    verdict = True
                 else:
-                    detail = "bound values are (%s, %s), expected (x.id, json.dumps(x.to_dict()))" % (text(a), text(b))
-        ctx.check(good, "R2", "SqliteDataStore.%s" % name, where(mod, fn), "executes the upsert bound to (individual.id, json.dumps(individual.to_dict()))" if good else detail, key="binding")
+                    verdict, detail = None, "row construction %s not recognised" % text(src)
+            elif isinstance(src, ast.Call) and isinstance(src.func, ast.Attribute) and src.func.attr == "items" and isinstance(src.func.value, ast.Name):
+                dname = src.func.value.id
+                # rows[x.id] = json.dumps(x.to_dict()) must be assigned unconditionally (the last record of an id wins)
+                sets = [s_ for s_ in stmts_of(fn) if isinstance(s_, ast.Assign) and isinstance(s_.targets[0], ast.Subscript) and access_path(s_.targets[0].value) == dname]
+                guarded = [s_ for s_ in stmts_of(fn) if isinstance(s_, ast.If) and any(x in stmts_of(s_) for x in sets) and dname in text(s_.test)]
+                other_guard = [s_ for lp_ in stmts_of(fn) if isinstance(lp_, ast.For) for s_ in stmts_of(lp_) if isinstance(s_, ast.If) and any(x in stmts_of(s_) for x in sets) and s_ not in guarded]
+                guarded = guarded + other_guard
+                if len(sets) == 1 and pair_ok(sets[0].targets[0].slice, sets[0].value):
+                    if guarded and ("not in %s" % dname) in text(guarded[0].test):
+                        verdict, detail = False, "rows are collected per id with `%s`: for a repeated id the FIRST record is kept and written, not the last" % text(guarded[0].test)
+                    elif guarded:
+                        verdict, detail = None, "row collection guarded by %s" % text(guarded[0].test)
+                    else:
+                        verdict = True
+                else:
+                    verdict, detail = None, "row dictionary construction not recognised"
+            else:
+                verdict, detail = None, "rows %s not recognised" % text(rows)
+        C2 = "SqliteDataStore.%s" % name
+        if verdict is True:
+            ctx.holds("R2", C2, where(mod, fn), "writes the upsert bound to (individual.id, json.dumps(individual.to_dict()))", key="binding")
+        elif verdict is False:
+            ctx.violated("R2", C2, where(mod, fn), detail, key="binding")
+        elif ex:
+            ctx.inconclusive("R2", C2, where(mod, fn), detail, key="binding")
+        else:
+            ctx.violated("R2", C2, where(mod, fn), "the upsert statement is never executed", key="binding")
     fn = cls.methods.get("sync_all")
     loops = [s for s in stmts_of(fn) if isinstance(s, ast.For)]
-    ok = any((access_path(l.iter) or "").endswith(".problem.individuals") for l in loops)
+    ok = any((access_path(l.iter) or "").endswith(".problem.individuals") for l in loops) or any(
+        (access_path(g.iter) or "").endswith(".problem.individuals") and not g.ifs
+        for n_ in ast.walk(fn) if isinstance(n_, (ast.ListComp, ast.GeneratorExp)) for g in n_.generators)
     ctx.check(ok, "R4", "SqliteDataStore.sync_all", where(mod, fn), "iterates problem.individuals (every recorded individual is written)", key="sync-all-domain")
     commits = [c for c in calls_in(fn) if isinstance(c.func, ast.Attribute) and c.func.attr == "commit"]
     ctx.check(bool(commits), "R4", "SqliteDataStore.sync_all", where(mod, fn), "commits after writing", key="sync-all-commit")
